@@ -58,6 +58,7 @@ Definition mech_name (m : mechanism) : string :=
               | 3 double free / invalid free / alloc-dealloc mismatch | 4 misaligned access or construction
               | 5 signed integer overflow | 6 other UBSan report (division by zero, shift, null, bounds, ...)
               | 7 leak reported by LSan at exit | 8 SEGV / other deadly signal reported by ASan | 9 unclassified sanitizer output
+              | 10 the harness' own lifetime ledger (life.h counters) shows misuse or constructions <> destructions at the end
    owner mask: TimedTask cases only: what C26's judge_tt says about the same case (value 1 = start after cancel, 2 = closure
                access after ~TimedTask returned, 4 = start after a false return: the three known-domain bits of its verdict;
                8 = its model run saw a closure use-after-free that is not after the destructor's return (the wrapper's
